@@ -368,7 +368,29 @@ pub fn agree_modulo_eof(model: &str, t: &Trace, ops: &[Op]) -> bool {
             None => return false,
         };
         if m != tok {
-            return tok == "err(eof)" && (m.starts_with("row(") || m.starts_with("frame("));
+            if tok == "err(eof)" && (m.starts_with("row(") || m.starts_with("frame(")) {
+                return true;
+            }
+            // BOTH sides ran out of input in an earlier call which the caller then did not repeat (it went on with a different
+            // call): how far that interrupted call had got internally - how many rows it had already taken out of the inflater -
+            // depends on how eagerly the inflater hands out bytes, so from there on the eager model and the real decoder are two
+            // different instances of the inflater contract (the documented use is to repeat the SAME call; C05 checks that).
+            for k in (0..i).rev() {
+                if matches!(ops.get(k), Some(Op::Grow(_))) {
+                    continue;
+                }
+                if t.tokens[k] == "err(eof)" && mtoks.get(k) == Some(&"err(eof)") {
+                    let next = ops.iter().skip(k + 1).find(|o| !matches!(o, Op::Grow(_)));
+                    let same = match (ops.get(k), next) {
+                        (Some(a), Some(b)) => std::mem::discriminant(a) == std::mem::discriminant(b),
+                        _ => false,
+                    };
+                    if !same {
+                        return true;
+                    }
+                }
+            }
+            return false;
         }
     }
     false
